@@ -238,3 +238,124 @@ def q_c08_get_range(bodies):
 
 
 QUERIES_C08 = [q_c08_get_range]
+
+
+# ------------------------------------------------------------------------------------------------
+# get_fingerprint: XOR over exactly the entries of get_range(range), nothing skipped, nothing added
+# ------------------------------------------------------------------------------------------------
+
+def q_c08_get_fingerprint(bodies):
+    """`StoreInstance::get_fingerprint` executed (Exec2, loop unrolled over the K <= 3 rows the range scan yields, each an
+    opaque entry — deletion markers are entries like any other — or, for one row, a storage error):
+      * the scan is `get_range` of the document's own store with the (cloned) range it was asked about;
+      * the accumulator starts as `Fingerprint::empty()`; it is XOR-ed with `as_fingerprint` of EVERY row of the scan, in
+        order, each exactly once, and with nothing else; the accumulator is what is returned;
+      * a row that is a storage error ends the function with that error."""
+    name = "c08_get_fingerprint"
+    from stdmodels import PMExec, Inconclusive
+    hits = _find(bodies, r"^store::fs::<impl at [^>]*>::get_fingerprint$", r"StoreInstance")
+    if len(hits) != 1:
+        return dict(name=name, property="C08", verdict="inconclusive", detail="get_fingerprint not found uniquely (%d)" % len(hits), functions=[])
+    body = hits[0]
+    problems, nq, ncases = [], 0, 0
+    funcs = set()
+    for K in (0, 1, 2, 3):
+        for err_at in [None] + list(range(K)):
+            smt = Smt()
+            for f, n in (("C_Ok", 1), ("C_Err", 1), ("C_Some", 1), ("C_None", 0), ("C_Continue", 1), ("C_Break", 1), ("C_seq", 1), ("fpof", 1), ("discr", 1)):
+                smt.fun(f, n)
+            for c in ("SELF", "RANGE", "FP0", "ROWERR", "UNIT", "SCANERR"):
+                smt.decls.append("(declare-const %s V)" % c)
+            for i in range(K):
+                smt.decls.append("(declare-const E%d V)" % i)
+            smt.decls.append("(declare-const scan_ok Bool)")
+            rows = ["(C_Err ROWERR)" if i == err_at else "(C_Ok E%d)" % i for i in range(K)]
+            st = {"xors": [], "scans": []}
+
+            def m_get_range(ex, v, env, rows=rows):
+                env["__scans"] = env.get("__scans", ()) + ((v[0], _deep(ex, env, v[1])),)
+                return [("scan_ok", "(C_Ok %s)" % ex.new_seq(env, rows)), ("(not scan_ok)", "(C_Err SCANERR)")]
+            m_get_range.wants_env = True
+
+            def m_next(ex, v, env):
+                sid = ex.seq_of(env, v[0], "iterator")
+                items, pos = env["__seq"][sid]
+                if pos >= len(items):
+                    return "C_None"
+                env["__seq"] = dict(env["__seq"], **{sid: (items, pos + 1)})
+                return "(C_Some %s)" % items[pos]
+            m_next.wants_env = True
+
+            def m_branch(ex, v):
+                x = v[0]
+                if x.startswith("(C_Ok "):
+                    return "(C_Continue %s)" % split_sexpr_args(x)[0]
+                if x.startswith("(C_Err "):
+                    return "(C_Break %s)" % x
+                raise ValueError("branch of %s" % x[:60])
+
+            def m_xor(ex, v, env):
+                env["__xors"] = env.get("__xors", ()) + ((_deep(ex, env, v[0]), v[1]),)
+                return "UNIT"
+            m_xor.wants_env = True
+            models = {
+                r"^<ranger::Range<RecordIdentifier> as Clone>::clone$": lambda ex, v: "(clone_of_range %s)" % mk_deref(v[0]),
+                r"^<StoreInstance<'_> as ranger::Store<sync::SignedEntry>>::get_range$": m_get_range,
+                r" as Try>::branch$": m_branch,
+                r" as FromResidual<.*>>::from_residual$": lambda ex, v: v[0] if v[0].startswith("(C_Err") else "(C_Err %s)" % v[0],
+                r"^Fingerprint::empty$": lambda ex, v: "FP0",
+                r" as IntoIterator>::into_iter$": lambda ex, v: v[0],
+                r" as Iterator>::next$": m_next,
+                r"^<sync::SignedEntry as RangeEntry>::as_fingerprint$": lambda ex, v: "(fpof %s)" % mk_deref(v[0]),
+                r"^<Fingerprint as BitXorAssign>::bitxor_assign$": m_xor,
+            }
+            smt.fun("clone_of_range", 1)
+            ex = PMExec(bodies, smt, models=models, max_paths=500, max_depth=5000)
+            try:
+                paths = ex.run(body, ["SELF", "(ref RANGE)"], feasibility=False)
+            except (Inconclusive, ValueError, AssertionError, KeyError, IndexError, RecursionError) as e:
+                problems.append(("get_fingerprint can be followed", "inconclusive", "K=%d err_at=%s: %r" % (K, err_at, e)))
+                continue
+            funcs |= ex.inlined
+            for pc, ret, calls, env in paths:
+                nq += 1
+                v, _ = solve(smt.script("(and true %s)" % " ".join(pc)))
+                if v == "unsat":
+                    continue
+                ncases += 1
+                tag = "rows=%d error row=%s path=%s" % (K, err_at, pc[:4])
+                scans = env.get("__scans", ())
+                if len(scans) != 1 or scans[0][0] != "SELF" or scans[0][1] != "(clone_of_range RANGE)":
+                    problems.append(("the fingerprint is computed over get_range of the document's own store for exactly the range asked about", "sat", tag + " scans=%s" % (scans,)))
+                    continue
+                if "(not scan_ok)" in pc:
+                    if not ret.startswith("(C_Err"):
+                        problems.append(("a failing range scan is reported as an error", "sat", tag))
+                    continue
+                xors = env.get("__xors", ())
+                upto = K if err_at is None else err_at
+                # rows taken before an error row / all rows, depending on where the function ended
+                if err_at is not None:
+                    if not ret.startswith("(C_Err"):
+                        problems.append(("a storage error inside the range ends get_fingerprint with that error", "sat", tag + " ret=%s" % ret[:60]))
+                    continue
+                want = [("FP0", "(fpof E%d)" % i) for i in range(upto)]
+                if list(xors) != want:
+                    problems.append(("the range fingerprint is the XOR of as_fingerprint of EVERY entry of the range (deletion markers included), each exactly once, starting from the fingerprint of the empty set", "sat",
+                                     tag + " xor steps=%s" % [x[1] for x in xors]))
+                    continue
+                if ret != "(C_Ok FP0)":
+                    problems.append(("the value returned is the accumulator", "sat", tag + " ret=%s" % ret[:80]))
+    verdict = "holds"
+    if any(p[1] == "inconclusive" for p in problems):
+        verdict = "inconclusive"
+    if any(p[1] != "inconclusive" for p in problems):
+        verdict = "violated"
+    problems.sort(key=lambda p: p[1] == "inconclusive")
+    return dict(name=name, property="C08", verdict=verdict, detail="feasible paths=%d; problems: %s" % (ncases, problems[:4] or "none"),
+                functions=sorted(funcs) + ["get_range (its own query c08_get_range), SignedEntry::as_fingerprint (Kani harness fingerprint_input_*), Fingerprint ^= (modelled: recorded)"],
+                queries=nq, cases=ncases, witness="c08range",
+                check_message=(problems[0][0] if problems else "get_fingerprint is the XOR over exactly the range's entries"))
+
+
+QUERIES_C08 = [q_c08_get_range, q_c08_get_fingerprint]
